@@ -51,6 +51,28 @@ pub enum Cmd {
     Case { word: &'static str, items: Vec<(Vec<&'static str>, Cmd)> },
     FuncDef(u32, Box<Cmd>),
     Call(u32),
+    // ---- processes (C13)
+    /// `BODY & p<var>=$!` (BODY starts with a direct probe, which names the lane)
+    Async { var: u32, body: Box<Cmd> },
+    /// `wait $pA $pB` (empty: `wait`)
+    Wait(Vec<u32>),
+    /// `wait 99999` (unknown pid)
+    WaitUnknown,
+    /// `probe kID "$!" "$p<var>"`
+    ProbeBang { id: u32, var: u32 },
+    /// `s<id>=$(echo OUT; BODY)`
+    CmdSubst { id: u32, out: &'static str, body: Box<Cmd> },
+    /// `pvar kID s<var_id>`
+    ProbeS { id: u32, var_id: u32 },
+    /// `set -o pipefail` / `set +o pipefail`
+    SetPipefail(bool),
+    /// `gen N 1` : a pipeline stage writing N bytes (more than the pipe holds); whether it succeeds
+    /// depends on when its reader exits, so its own status is never used
+    Gen(u32),
+    /// `echo DATA` (a pipeline stage that writes one line)
+    Echo(&'static str),
+    /// `{ read l; probe kID "$l"; }` placed right after an `Echo(DATA)` stage
+    ReadProbe { id: u32, data: &'static str },
     // ---- shell errors (C10)
     /// ordinary command whose redirection fails: `probe -s 0 kID </nonexistent/file`
     RedirFail { id: u32 },
@@ -119,6 +141,9 @@ pub struct Sh {
     pub execs: Vec<Vec<String>>,
     /// a subshell was entered since the innermost function call
     sub_since_call: bool,
+    /// exit status of each asynchronous job, by pid-variable number
+    jobs: BTreeMap<u32, St>,
+    pipefail: bool,
 }
 
 #[derive(Clone, Copy, Debug, PartialEq)]
@@ -154,6 +179,8 @@ impl Sh {
             in_subshell: false,
             execs: Vec::new(),
             sub_since_call: false,
+            jobs: BTreeMap::new(),
+            pipefail: false,
         }
     }
     fn get(&self, v: &str) -> Option<&Var> {
@@ -356,9 +383,97 @@ impl Sh {
                 self.status = if self.status == 0 { 1 } else { 0 };
                 Flow::Normal
             }
+            Cmd::Async { var, body } => {
+                let mut child = self.clone();
+                child.in_subshell = true;
+                child.loop_depth = 0;
+                child.mark_subshell();
+                child.jobs.clear();
+                child.lane = lane_of_stage(self.lane, body);
+                child.run(body, ev);
+                self.jobs.insert(*var, child.status);
+                // `cmd &` has status 0, and so has the assignment p=$!
+                self.status = 0;
+                Flow::Normal
+            }
+            Cmd::Wait(vars) => {
+                let mut st = 0;
+                for v in vars {
+                    st = self.jobs.remove(v).unwrap_or(127);
+                }
+                if vars.is_empty() {
+                    self.jobs.clear();
+                }
+                self.status = st;
+                self.errexit_check()
+            }
+            Cmd::WaitUnknown => {
+                self.status = 127;
+                self.errexit_check()
+            }
+            Cmd::ProbeBang { id, .. } => {
+                ev.push(Ev {
+                    lane: self.lane,
+                    id: *id,
+                    st: self.status,
+                    args: vec!["<pid>".into(), "<pid>".into()],
+                });
+                self.status = 0;
+                Flow::Normal
+            }
+            Cmd::CmdSubst { id, out, body } => {
+                let mut child = self.clone();
+                child.in_subshell = true;
+                child.loop_depth = 0;
+                child.mark_subshell();
+                child.jobs.clear();
+                // `echo OUT` first
+                child.status = 0;
+                child.run(body, ev);
+                if child.lane == 0 {
+                    self.execs = child.execs;
+                }
+                self.set(&format!("s{id}"), out.to_string());
+                // the status of an assignment-only command is that of its last command substitution
+                self.status = child.status;
+                self.errexit_check()
+            }
+            Cmd::ProbeS { id, var_id } => {
+                let name = format!("s{var_id}");
+                let v = self.get(&name).and_then(|v| v.val.clone()).unwrap_or_else(|| "UNSET".into());
+                ev.push(Ev {
+                    lane: self.lane,
+                    id: *id,
+                    st: self.status,
+                    args: vec![v, "-".into()],
+                });
+                self.status = 0;
+                Flow::Normal
+            }
+            Cmd::Echo(_) | Cmd::Gen(_) => {
+                self.status = 0;
+                Flow::Normal
+            }
+            Cmd::ReadProbe { id, data } => {
+                // read succeeds (status 0), then the probe runs
+                ev.push(Ev {
+                    lane: self.lane,
+                    id: *id,
+                    st: 0,
+                    args: vec![data.to_string()],
+                });
+                self.status = 0;
+                Flow::Normal
+            }
+            Cmd::SetPipefail(b) => {
+                self.pipefail = *b;
+                self.status = 0;
+                Flow::Normal
+            }
             Cmd::Pipe(stages) => {
                 let n = stages.len();
                 let mut last = 0;
+                let mut rightmost_failure = 0;
                 for (i, s) in stages.iter().enumerate() {
                     let mut child = self.clone();
                     child.in_subshell = true;
@@ -367,7 +482,11 @@ impl Sh {
                     if i + 1 < n {
                         child.lane = lane_of_stage(self.lane, s);
                     }
+                    child.jobs.clear();
                     child.run(s, ev);
+                    if child.status != 0 {
+                        rightmost_failure = child.status;
+                    }
                     if i + 1 == n {
                         last = child.status;
                         if child.lane == 0 {
@@ -375,7 +494,7 @@ impl Sh {
                         }
                     }
                 }
-                self.status = last;
+                self.status = if self.pipefail { rightmost_failure } else { last };
                 self.errexit_check()
             }
             Cmd::Brace(c) => self.run(c, ev),
@@ -384,6 +503,7 @@ impl Sh {
                 child.in_subshell = true;
                 child.loop_depth = 0;
                 child.mark_subshell();
+                child.jobs.clear();
                 child.run(c, ev);
                 self.status = child.status;
                 if child.lane == 0 {
@@ -661,7 +781,11 @@ pub fn first_id(c: &Cmd) -> Option<u32> {
         | Cmd::ProbePos { id }
         | Cmd::RedirFail { id }
         | Cmd::ExpansionErr { id }
+        | Cmd::ProbeBang { id, .. }
+        | Cmd::ReadProbe { id, .. }
+        | Cmd::ProbeS { id, .. }
         | Cmd::Loop { id, .. } => Some(*id),
+        Cmd::Async { body, .. } | Cmd::CmdSubst { body, .. } => first_id(body),
         Cmd::For { body, .. } => first_id(body),
         Cmd::Seq(cs) | Cmd::Pipe(cs) => cs.iter().find_map(first_id),
         Cmd::AndOr(a, rest) => first_id(a).or_else(|| rest.iter().find_map(|(_, c)| first_id(c))),
@@ -907,6 +1031,32 @@ impl Render<'_> {
                 format!("f{n}() {{ {}{t}}}", self.list(body))
             }
             Cmd::Call(n) => format!("f{n} arg"),
+            Cmd::Async { var, body } => {
+                let b = self.at(body, 1);
+                format!("{b} & p{var}=$!")
+            }
+            Cmd::Wait(vars) => {
+                let mut s = String::from("wait");
+                for v in vars {
+                    s.push_str(&format!(" $p{v}"));
+                }
+                s
+            }
+            Cmd::WaitUnknown => "wait 99999".into(),
+            Cmd::ProbeBang { id, var } => format!("probe k{id} \"$!\" \"$p{var}\""),
+            Cmd::CmdSubst { id, out, body } => {
+                let b = self.list(body);
+                if self.rng.chance(30) {
+                    format!("s{id}=`echo {out}; {b}`")
+                } else {
+                    format!("s{id}=$(echo {out}; {b})")
+                }
+            }
+            Cmd::ProbeS { id, var_id } => format!("pvar k{id} s{var_id}"),
+            Cmd::SetPipefail(b) => (if *b { "set -o pipefail" } else { "set +o pipefail" }).into(),
+            Cmd::Echo(d) => format!("echo {d}"),
+            Cmd::Gen(n) => format!("gen {n} 1"),
+            Cmd::ReadProbe { id, .. } => format!("{{ read l; probe k{id} \"$l\"; }}"),
             Cmd::RedirFail { id } => format!("probe -s 0 k{id} </nonexistent/file"),
             Cmd::SpecialErr(k) => SPECIAL_ERRS[*k as usize].into(),
             Cmd::CommandSpecialErr(k) => format!("command {}", SPECIAL_ERRS[*k as usize]),
@@ -1231,6 +1381,8 @@ pub fn nesting_paths(c: &Cmd, path: &mut Vec<&'static str>, out: &mut Vec<String
         Cmd::For { .. } => Some("for"),
         Cmd::Case { .. } => Some("case"),
         Cmd::FuncDef(..) => Some("func"),
+        Cmd::Async { .. } => Some("&"),
+        Cmd::CmdSubst { .. } => Some("$()"),
         _ => None,
     };
     if let Some(t) = tag {
@@ -1243,6 +1395,7 @@ pub fn nesting_paths(c: &Cmd, path: &mut Vec<&'static str>, out: &mut Vec<String
             rest.iter().for_each(|(_, c)| nesting_paths(c, path, out));
         }
         Cmd::Not(c) | Cmd::Brace(c) | Cmd::Subshell(c) | Cmd::FuncDef(_, c) => nesting_paths(c, path, out),
+        Cmd::Async { body, .. } | Cmd::CmdSubst { body, .. } => nesting_paths(body, path, out),
         Cmd::If(arms, els) => {
             for (a, b) in arms {
                 nesting_paths(a, path, out);
